@@ -230,7 +230,7 @@ impl LoWorkload {
             if !in_domain(&seqs, &labels, m, true) {
                 continue;
             }
-            let samples: Vec<Sample> = seqs.into_iter().enumerate().map(|(i, s)| Sample { name: format!("g{i}"), records: vec![("c".into(), if rng.chance(30) { revcomp(&s) } else { s })], wrap: *rng.pick(&[0usize, 60]) }).collect();
+            let samples: Vec<Sample> = seqs.into_iter().enumerate().map(|(i, s)| Sample { name: format!("g{i}"), records: vec![("c".into(), if rng.chance(30) { revcomp(&s) } else { s })], wrap: *rng.pick(&[0usize, 60]), path: None, lower: false }).collect();
             let nv = if tier == Tier::Quick { 3 } else { 4 };
             return Some(LoCase {
                 kind: if with_ref { "snp-ref".into() } else { "snp".into() },
@@ -317,7 +317,7 @@ impl LoWorkload {
             if !in_domain(&seqs, &labels, m, false) {
                 continue;
             }
-            let samples: Vec<Sample> = seqs.into_iter().enumerate().map(|(i, s)| Sample { name: format!("g{i}"), records: vec![("c".into(), if rng.chance(30) { revcomp(&s) } else { s })], wrap: 0 }).collect();
+            let samples: Vec<Sample> = seqs.into_iter().enumerate().map(|(i, s)| Sample { name: format!("g{i}"), records: vec![("c".into(), if rng.chance(30) { revcomp(&s) } else { s })], wrap: 0, path: None, lower: false }).collect();
             let nv = if tier == Tier::Quick { 2 } else { 3 };
             return Some(LoCase {
                 kind: "indel".into(),
@@ -480,7 +480,7 @@ impl Workload for LoWorkload {
         let mut out = Outcome::default();
         let n = c.samples.len();
         for s in &c.samples {
-            dir.write(&s.file(), s.fasta().as_bytes());
+            dir.write(&s.file(), &s.bytes());
         }
         let with_ref = c.kind == "snp-ref";
         let anc = c.ancestor.as_bytes();
